@@ -115,6 +115,7 @@ def run(chk, prog):
                        % (root, ' and '.join(bad)), fn.loc(bb))
     chk.floor(RB, 'inserts into named_flows', nins, 2)
     check_load_parks_no_current_flow(chk, prog, tr, RB)
+    check_load_replaces_parked_flows(chk, prog, tr, RB)
 
     # ---- (c)
     sw = prog.fn('StoryState::switch_flow_internal')
@@ -191,6 +192,33 @@ def check_load_parks_no_current_flow(chk, prog, tr, RB):
                            'beside its map entry and the entry is not removed on every path): the map keeps a second copy '
                            'that goes stale and is saved over the live flow under the same key', lj.loc(bb))
 
+
+
+def check_load_replaces_parked_flows(chk, prog, tr, RB):
+    """On the way to the first insert into named_flows, load_json_obj has created the map afresh or cleared it."""
+    lj = prog.fn('StoryState::load_json_obj')
+    if not chk.anchor(RB, 'StoryState::load_json_obj', lj):
+        return
+    g = cfg(lj)
+    ins = [bb for bb, t in lj.calls() if callee_short(t) == 'HashMap::insert' and len(t['args']) >= 3 and (
+        'field:StoryState::named_flows' in tr.prov(lj, t['args'][0]) or _is_flow_map(lj, t))]
+    fresh = []
+    for bb, t in lj.calls():
+        if callee_short(t) in ('HashMap::clear', 'HashMap::drain', 'HashMap::retain') and t['args'] \
+                and 'field:StoryState::named_flows' in tr.prov(lj, t['args'][0]):
+            fresh.append(bb)
+    for bb, si, s_ in lj.stmts():
+        if s_['k'] == 'assign':
+            fl = fields_of_place(s_['pl'])
+            if fl and fl[-1] == ('StoryState', 'named_flows'):
+                fresh.append(bb)
+    if chk.anchor(RB, 'inserts into named_flows in load_json_obj', ins):
+        w = g.path([0], lambda b: b in ins, avoid=fresh)
+        chk.decide(RB, chk.key(RB, 'load_json_obj', 'parked-set-replaced'), w is None,
+                   'the map is new or cleared before the saved flows are inserted',
+                   'load_json_obj can insert the saved flows into named_flows without having emptied it: a flow parked '
+                   'before the load and absent from the save survives loading it (stale position, text and choices)',
+                   lj.loc(ins[0]), {'witness_blocks': w})
 
 
 def _is_flow_map(fn, t):
